@@ -36,6 +36,9 @@ func init() {
 
 const kvBucket = "vb"
 
+// aliasBucket + "b" + key == kvBucket + key
+const aliasBucket = "v"
+
 // padding writes of big transactions (unobserved bucket)
 const (
 	padBucket = "vbpad"
@@ -78,6 +81,7 @@ type catTx struct {
 	Writes map[string]string `json:"writes"`
 	Bad    string            `json:"bad"`
 	Big    bool              `json:"big"`
+	Alias  bool              `json:"alias"`
 }
 type catalog struct {
 	Tx      map[string]catTx `json:"tx"`
@@ -275,6 +279,15 @@ func (s *xsim) tx(name string) (*pb.Transaction, error) {
 		tx.TxOutputs = append(tx.TxOutputs, &protos.TxOutput{ToAddr: []byte(addrOf(o.To)), Amount: amtBytes(o.Amt, true), FrozenHeight: o.Fz})
 	}
 	prog := []fx.VOp{}
+	if c.Alias {
+		// first in the read / write lists: a never-written key of bucket "v" named "b"+k, so that bucket + key
+		// concatenated equals kvBucket + k (records are identified by (bucket, key), not by the concatenation)
+		for _, k := range sortedKeys(c.Writes) {
+			tx.TxInputsExt = append(tx.TxInputsExt, &protos.TxInputExt{Bucket: aliasBucket, Key: []byte("b" + k)})
+			tx.TxOutputsExt = append(tx.TxOutputsExt, &protos.TxOutputExt{Bucket: aliasBucket, Key: []byte("b" + k), Value: []byte("a")})
+			prog = append(prog, fx.VOp{"put", aliasBucket, "b" + k, "a"})
+		}
+	}
 	for _, k := range sortedKeys(c.Reads) {
 		in := &protos.TxInputExt{Bucket: kvBucket, Key: []byte(k)}
 		if v := c.Reads[k]; v != "none" {
